@@ -93,9 +93,9 @@ Definition C12_statement : Prop :=
 
 (* ------------------------------------------------------------------ concrete views and sub-ranges *)
 Definition view_of (e : enc) (t : list N) : list (N * nat) :=
-  match e with U8 => map (fun c => (c, len_utf8 c)) t | U16 => decode16 t end.
+  match e with U8 => map (fun c => (c, len_utf8 c)) t | U16 => decode16 t | U32 => map (fun c => (c, 1)) t end.
 Definition valid_text (e : enc) (t : list N) : Prop :=
-  match e with U8 => True | U16 => is_u16 t end.
+  match e with U8 => True | U16 => is_u16 t | U32 => True end.
 
 Definition view_of_statement : Prop :=
   forall e t, valid_text e t -> text_view e t (view_of e t).
